@@ -11,23 +11,33 @@ import (
 
 // fragInput is a generated single-track fragmented file with its model.
 type fragInput struct {
-	h       *gfrag.History
-	built   *gfrag.Built
-	want    *wantTrack
-	label   string
-	gapped  bool // a decode-time gap between two fragments
-	hostile bool // boundary field values
-	gopDur  uint64
-	total   uint64
+	h         *gfrag.History // nil for shaped inputs
+	built     *gfrag.Built   // nil for shaped inputs
+	initBytes []byte         // ftyp + moov
+	media     []byte         // everything after the init
+	all       []byte         // init + media
+	want      *wantTrack
+	label     string
+	route     string // history | generate | bytes | api-optimized
+	styp      bool
+	optimize  bool // history routes: written with mp4.OptimizeTrun
+	nsegs     int
+	gapped    bool // a decode-time gap between two fragments
+	hostile   bool // boundary field values
+	gopDur    uint64
+	total     uint64
+	xf        *frag.File // reference expansion of the input (self-check)
 }
 
 type fragGenOptions struct {
-	media       string // "" = random
-	hostile     bool   // boundary values for dur/cto/flags/base
-	noTrexDeps  bool   // the media must be expandable without trex
-	oneFrag     bool   // exactly one segment with one fragment
-	allowGap    bool
-	allowNoStyp bool
+	tool          string // for the evidence: resegmenter | fragmentify | combine-segs
+	media         string // "" = random
+	hostile       bool   // boundary values for dur/cto/flags/base
+	noTrexDeps    bool   // the media must be expandable without trex
+	oneFrag       bool   // exactly one segment with one fragment
+	separateMedia bool   // the tool reads the media part as a file of its own (absolute offsets count from its start)
+	allowGap      bool
+	allowNoStyp   bool
 }
 
 var (
@@ -289,8 +299,17 @@ func genFragHistory(r *runner.Rand, o fragGenOptions) (*gfrag.History, string, b
 // makeFragInput draws a single-track fragmented input and checks that the
 // reference expansion of its bytes equals the model.
 func makeFragInput(c *runner.Ctx, o fragGenOptions, useGenerate bool) *fragInput {
-	in := &fragInput{hostile: o.hostile}
+	// 45% hand-assembled shaped inputs, 10% multi-trun inputs built through the API with
+	// trun optimisation, the rest single-trun API histories as before
+	switch x := c.Rand.Intn(20); {
+	case x < 9:
+		return makeShapedInput(c, o, false)
+	case x < 11:
+		return makeShapedInput(c, o, true)
+	}
+	in := &fragInput{hostile: o.hostile, route: "history"}
 	if useGenerate {
+		in.route = "generate"
 		gts := gfrag.TrackSpec{ID: 1, Timescale: uint32(c.Rand.PickInt(1000, 48000, 90000, 12800)), Media: c.Rand.PickStr("video", "audio")}
 		if o.media != "" {
 			gts.Media = o.media
@@ -347,18 +366,53 @@ func makeFragInput(c *runner.Ctx, o fragGenOptions, useGenerate bool) *fragInput
 			in.gapped = true
 		}
 	}
-	// self-check: the independent expansion of the input bytes equals the model
-	xf, err := frag.ExpandFile(built.Bytes, nil)
+	in.initBytes, in.media, in.all = built.InitBytes, built.Media(), built.Bytes
+	in.styp, in.optimize, in.nsegs = in.h.Segments[0].Styp, in.h.Optimize, len(in.h.Segments)
+	if !in.selfCheck(c, o) {
+		return nil
+	}
+	in.finish(c)
+	return in
+}
+
+// selfCheck: the independent expansion of the input bytes equals the model.
+// It also books the census of the input's shape (from the bytes).
+func (in *fragInput) selfCheck(c *runner.Ctx, o fragGenOptions) bool {
+	var xf *frag.File
+	var err error
+	if o.separateMedia {
+		var init *frag.Init
+		if init, err = parseInitBytes(in.initBytes); err == nil {
+			xf, err = frag.ExpandFile(in.media, init)
+		}
+	} else {
+		xf, err = frag.ExpandFile(in.all, nil)
+	}
 	if err != nil {
-		c.Inconclusive("harness-selfcheck: reference expansion rejects the generated fragmented input")
-		return nil
+		c.Inconclusive("harness-selfcheck: reference expansion rejects the generated fragmented input (" + in.route + ")")
+		return false
 	}
-	got := xf.TrackSamples(ts.ID)
-	if !sameAsModel(in.want, got) {
-		c.Inconclusive("harness-selfcheck: reference expansion of the fragmented input differs from the generator's record")
-		return nil
+	if !sameAsModel(in.want, xf.TrackSamples(1)) {
+		c.Inconclusive("harness-selfcheck: reference expansion of the fragmented input differs from the generator's record (" + in.route + ")")
+		return false
 	}
-	// GOP duration and total for the duration classes
+	in.xf = xf
+	return true
+}
+
+// writer names how the media part was written.
+func (in *fragInput) writer() string {
+	switch in.route {
+	case "bytes":
+		return "hand-assembled"
+	case "api-optimized":
+		return "api multi-trun optimize=true"
+	}
+	return fmt.Sprintf("api single-trun optimize=%v", in.optimize)
+}
+
+// finish computes GOP duration and total for the duration classes.
+func (in *fragInput) finish(c *runner.Ctx) {
 	var syncs []int
 	for i, s := range in.want.Samples {
 		in.total += uint64(s.Dur)
@@ -371,7 +425,71 @@ func makeFragInput(c *runner.Ctx, o fragGenOptions, useGenerate bool) *fragInput
 		k := c.Rand.Intn(len(syncs) - 1)
 		in.gopDur = in.want.Samples[syncs[k+1]].DTS - in.want.Samples[syncs[k]].DTS
 	}
-	return in
+}
+
+// census books, from the reference reading of the input bytes, how many runs
+// the track fragments hold and where durations / sizes / flags come from.
+func (in *fragInput) census(c *runner.Ctx, tool string) {
+	if in.xf == nil {
+		return
+	}
+	c.Seen("frag_input_route", tool+" "+in.route)
+	var trex *frag.Trex
+	if t := in.xf.Init.TrackByID(1); t != nil {
+		trex = t.Trex
+	}
+	_ = trex
+	for _, m := range in.xf.Moofs {
+		for _, tf := range m.Trafs {
+			c.Seen("input_truns_per_traf", fmt.Sprintf("%s truns=%d", tool, len(tf.Truns)))
+			if len(tf.Truns) > 1 {
+				c.Count("input_multi_trun_trafs/"+tool, 1)
+			}
+			base := "moof (default-base-is-moof)"
+			switch {
+			case tf.Tfhd.Has(frag.TfhdBaseDataOffset):
+				base = "tfhd base_data_offset"
+			case !tf.Tfhd.Has(frag.TfhdDefaultBaseMoof):
+				base = "moof (first traf, no flag)"
+			}
+			c.Seen("input_data_offset_base", base)
+			for ti, tr := range tf.Truns {
+				src := func(inTrun bool, tfhdBit uint32) string {
+					switch {
+					case inTrun:
+						return "trun"
+					case tf.Tfhd.Has(tfhdBit):
+						return "tfhd"
+					}
+					return "trex"
+				}
+				ds := src(tr.Has(frag.TrunDuration), frag.TfhdDefaultDuration)
+				ss := src(tr.Has(frag.TrunSize), frag.TfhdDefaultSize)
+				fs := src(tr.Has(frag.TrunFlags), frag.TfhdDefaultFlags)
+				if !tr.Has(frag.TrunFlags) && tr.Has(frag.TrunFirstSampleFlags) {
+					fs = "first_sample_flags+" + fs
+				}
+				pos := "first-trun"
+				if ti > 0 {
+					pos = "later-trun"
+				}
+				c.Seen("input_duration_source", tool+" "+pos+" "+ds)
+				c.Seen("input_size_source", tool+" "+pos+" "+ss)
+				c.Seen("input_flags_source", tool+" "+pos+" "+fs)
+				cto := "cto"
+				if !tr.Has(frag.TrunCto) {
+					cto = "no-cto"
+				}
+				c.Seen("input_trun_shape", fmt.Sprintf("dur=%s size=%s flags=%s %s v%d", ds, ss, fs, cto, tr.Version))
+				if ti > 0 && ds == "trex" {
+					c.Count("input_later_truns_with_trex_only_duration/"+tool, 1)
+				}
+				if ti > 0 && ds == "tfhd" {
+					c.Count("input_later_truns_with_tfhd_duration/"+tool, 1)
+				}
+			}
+		}
+	}
 }
 
 func sameAsModel(wt *wantTrack, got []frag.Sample) bool {
